@@ -10,7 +10,7 @@ Units
   values  constant / vector / array / n-shaped / function specifications
   dict    per-subregion dictionaries over all subregion layouts (precedence, default)
   nan     NaN as a *value* of a specification (constant, array, function, dict)
-  source  another field as specification (same / finer / coarser / larger / shifted / not covering)
+  source  another field as specification (same / finer / coarser / larger / shifted / same count and corner but larger cells / not covering)
   reuse   values from a source field / a function after the mesh object was used and then transformed in place
   sample  field(p) for every cell x {centre, 4 off-centre, faces, corners}
   access  component access for every label, iteration order
